@@ -15,3 +15,6 @@ func RaceErrors() int { return 0 }
 
 func RaceAcquire(p unsafe.Pointer) {}
 func RaceRelease(p unsafe.Pointer) {}
+
+func RaceWriteRange(p unsafe.Pointer, n int) {}
+func RaceReadRange(p unsafe.Pointer, n int)  {}
